@@ -159,10 +159,16 @@ def run(ctx):
         else:
             # a loud failure is allowed by the property, but not for states the code is meant to handle
             ctx.oblige(f"tamper:{c['name']}:completes", False, f"sender_err={r.get('sender_err')} recv_err={r.get('recv_err')}")
+    # 4b. sparse files above 4 GiB whose highest recorded chunk lies beyond 2^32 bytes and is torn: found by hash, repaired
+    from checks import e2egen as G2
+    bigs = [b for b in G2.big_cases(rng, ctx.tier == "thorough") if b.get("damage")]
+    rcb, bres = G2.run_xfer(ctx, xfer, "big", bigs, timeout=600)
+    ctx.oblige("harness:big", rcb == 0 and len(bres) == len(bigs), ctx.harness_stderr[-300:])
+    nbig = G2.judge_big(ctx, "C06", bigs, bres)
     # 5. the resume negotiation itself: generated reports answered by a scripted receiver, chunks that travel vs Model/Resume
     n_plan, d_plan, plan_stats = resumegen.run(ctx, xfer, "C06")
     ctx.coverage.update({
-        "resume_reports": n_plan, "resume_report_outcomes": plan_stats,
+        "resume_reports": n_plan, "big_sparse_files_with_torn_chunk_above_4GiB": nbig, "resume_report_outcomes": plan_stats,
         "evaluations": len(ser_cases) + len(parse_cases) + len(load_cases) + len(cases) + n_plan,
         "distinct_nontrivial": len(parse_in) + len(cases),
         "rule": "sidecars from the real CreateSidecar/Flush over (chunk in {1,7,32,64,4096}) x (total 0..70, byte-boundary totals) x random bitmaps and ids; EVERY single-bit flip and EVERY truncation of the small ones, "
